@@ -51,11 +51,16 @@ def P2(m, R):
     R.check(regs == {'<'}, f, outer, 'scan runs while %s < len(%s)' % (cur, s), 'scan runs while %s' % short(t), construct='scan loop')
 
     pre = f.body[:f.body.index(outer)]
-    pre_strs, pre_ints = set(), set()
+    pre_strs, pre_ints, pre_lists = set(), set(), set()
     for st_ in pre:
         if isinstance(st_, ast.Assign) and len(st_.targets) == 1:
             if isinstance(st_.value, ast.Constant) and st_.value.value == '':
                 pre_strs.add(norm(st_.targets[0]))
+            elif isinstance(st_.value, ast.List) and not st_.value.elts and isinstance(st_.targets[0], ast.Name) and \
+                    any(isinstance(x, ast.Call) and call_name(x) == 'join' and len(x.args) == 1 and is_name(x.args[0], st_.targets[0].id)
+                        for y in f.body[f.body.index(outer) + 1:] for x in ast.walk(y)):
+                # the text kept as a list of pieces that is joined after the scan: its length is the number of pieces
+                pre_lists.add(st_.targets[0].id)
             elif isinstance(st_.value, ast.Constant) and isinstance(st_.value.value, int) and not isinstance(st_.value.value, bool) and isinstance(st_.targets[0], ast.Name) \
                     and norm(st_.targets[0]) != cur:
                 pre_ints.add(st_.targets[0].id)
@@ -85,6 +90,9 @@ def P2(m, R):
             return plen(sval(e2.args[0], st, e2))
         if isinstance(e2, ast.Constant) and isinstance(e2.value, int) and not isinstance(e2.value, bool):
             return Sym(c=e2.value)
+        if isinstance(e2, ast.Call) and call_name(e2) == 'len' and len(e2.args) == 1 and isinstance(e2.func, ast.Name) and isinstance(e2.args[0], ast.Name) and \
+                e2.args[0].id in pre_lists:
+            return Sym({'K:#' + e2.args[0].id: 1}) + Sym(c=st['ints'].get('#' + e2.args[0].id, 0))
         if isinstance(e2, ast.Call) and call_name(e2) == 'len' and len(e2.args) == 1 and is_csi(e2.args[0]):
             return LC
         if isinstance(e2, ast.BinOp) and isinstance(e2.op, (ast.Add, ast.Sub)):
@@ -282,6 +290,14 @@ def P2(m, R):
         if isinstance(s0, ast.Expr):
             if isinstance(s0.value, ast.Constant):
                 return run(rest, st, k)
+            c0 = s0.value
+            if isinstance(c0, ast.Call) and call_name(c0) == 'append' and isinstance(c0.func, ast.Attribute) and isinstance(c0.func.value, ast.Name) and \
+                    c0.func.value.id in pre_lists and len(c0.args) == 1:
+                # one more piece of text: the text grows by its characters, the list by one element
+                text_names.add(c0.func.value.id)
+                st['text'].extend(sval(c0.args[0], st, s0))
+                st['ints']['#' + c0.func.value.id] = st['ints'].get('#' + c0.func.value.id, 0) + 1
+                return run(rest, st, k)
             return run(rest, note_record(s0, st), k)
         raise Undecided('statement %s' % short(s0))
 
@@ -388,13 +404,17 @@ def P2(m, R):
         for st_, how in results:
             if how != 'next':
                 continue
-            kend = st_['ints'].get(cname, Sym({'K:' + cname: 1})) - Sym({'K:' + cname: 1})
+            if cname.startswith('#'):
+                kend = Sym(c=st_['ints'].get(cname, 0))        # elements appended to the list of pieces in this iteration
+            else:
+                kend = st_['ints'].get(cname, Sym({'K:' + cname: 1})) - Sym({'K:' + cname: 1})
             grown = plen(st_['text'])
             if kend != grown and drift is None:
                 drift = (kend, grown)
-        R.check(drift is None, f, outer, 'the position counter %s grows exactly as the text does in every iteration' % cname,
-                'in some iteration the text grows by %r characters but the position counter %s by %r: sequences recorded afterwards are keyed at the wrong position '
-                '(c = cursor at the start of the iteration, LCSI = length of the introducer)' % (drift[1] if drift else '', cname, drift[0] if drift else ''),
+        cdesc = 'len(%s), the number of pieces in the list that is joined into the text,' % cname[1:] if cname.startswith('#') else 'the position counter %s' % cname
+        R.check(drift is None, f, outer, '%s grows exactly as the text does in every iteration' % cdesc,
+                'in some iteration the text grows by %r characters but %s by %r: sequences recorded afterwards are keyed at the wrong position '
+                '(c = cursor at the start of the iteration, LCSI = length of the introducer)' % (drift[1] if drift else '', cdesc, drift[0] if drift else ''),
                 construct='position counter')
     R.check(not reads_unguarded, f, outer, 'every read of a single input character is covered by a `< len(%s)` test at that position' % s,
             'the read %s is not covered by a `< len(%s)` test on some path (IndexError at the end of the input)' % (reads_unguarded[0][1] if reads_unguarded else '', s),
@@ -762,11 +782,97 @@ def F6(m, R):
             opt = n
     if opt is None:
         raise AnalysisError('anchor vanished: the optimiser block of to_str')
-    std_call = next(x for x in ast.walk(opt) if isinstance(x, ast.Assign) and call_name(x.value) == 'settings_to_dict')
+    std_calls = [x for x in ast.walk(opt) if isinstance(x, ast.Assign) and call_name(x.value) == 'settings_to_dict']
+    roles_ = m.roles
+    itl = next((n for n in f.walk() if isinstance(n, ast.For) and call_name(n.iter) == roles_.ITERATOR and isinstance(n.target, ast.Tuple) and len(n.target.elts) == 3
+                and any(opt is x for x in ast.walk(n))), None)
+    if len({norm(x.targets[0]) for x in std_calls}) != 1 or itl is None:
+        R.undecided(f, opt, 'new state of the optimiser not recognised', construct='optimiser state')
+        return
+    POINT, ACTIVE = norm(itl.target.elts[1]), norm(itl.target.elts[2])
+    # ---- the new state: the reduction of the full active list; a state carried over from the previous point is right only where nothing stops
+    full = [x for x in std_calls if x.value.args and norm(x.value.args[0]) in (ACTIVE, 'list(%s)' % ACTIVE) and not x.value.keywords and
+            (len(x.value.args) == 1 or norm(x.value.args[1]) in ('{}', 'None', 'dict()'))]
+    cons_ns = 'optimiser new state'
+    if not full:
+        R.undecided(f, std_calls[0], 'the new state is %s, not the reduction of the active settings %s' % (short(std_calls[0].value), ACTIVE), construct=cons_ns)
+        return
+    carried_bad = None
+    carried_unk = None
+    for x in std_calls:
+        if x in full:
+            continue
+        # path condition from the optimiser block down to this assignment
+        conds = []
+        child, par = x, getattr(x, '_parent', None)
+        while par is not None and par is not opt:
+            if isinstance(par, ast.If):
+                conds.append((par.test, any(child is b for b in par.body)))
+            elif not isinstance(par, (ast.With, ast.Try)):
+                conds = None
+                break
+            child, par = par, getattr(par, '_parent', None)
+        if conds is None or par is None:
+            carried_unk = x
+            continue
+
+        def scen(t_):
+            """three-valued truth in the scenario: exactly one setting stops at this point, a clearing setting (CLEAR_SETTING codes are never stored
+            as a value of the state dictionary -- rule F7 -- so it is not among the old state's values), nothing starts"""
+            if isinstance(t_, ast.BoolOp):
+                vs = [scen(v_) for v_ in t_.values]
+                if isinstance(t_.op, ast.And):
+                    return False if any(v_ is False for v_ in vs) else True if all(v_ is True for v_ in vs) else None
+                return True if any(v_ is True for v_ in vs) else False if all(v_ is False for v_ in vs) else None
+            if isinstance(t_, ast.UnaryOp) and isinstance(t_.op, ast.Not):
+                v_ = scen(t_.operand)
+                return None if v_ is None else not v_
+            tx = norm(t_)
+            if tx in ('%s.%s' % (POINT, roles_.STOP), 'len(%s.%s) > 0' % (POINT, roles_.STOP), 'len(%s.%s)' % (POINT, roles_.STOP)):
+                return True
+            if tx in ('%s.%s' % (POINT, roles_.START), 'len(%s.%s) > 0' % (POINT, roles_.START), 'len(%s.%s)' % (POINT, roles_.START)):
+                return False
+            if isinstance(t_, ast.Call) and call_name(t_) == 'any' and len(t_.args) == 1 and isinstance(t_.args[0], (ast.GeneratorExp, ast.ListComp)) and \
+                    len(t_.args[0].generators) == 1:
+                g_ = t_.args[0].generators[0]
+                it_ = norm(g_.iter)
+                names_ = {n_.id for n_ in ast.walk(t_.args[0].elt) if isinstance(n_, ast.Name)} | {norm(n_) for n_ in ast.walk(t_.args[0].elt) if isinstance(n_, ast.Attribute)}
+                dict_side = it_.endswith('.values()') or it_.endswith('.items()')
+                stop_side = it_ == '%s.%s' % (POINT, roles_.STOP)
+                if dict_side and '%s.%s' % (POINT, roles_.STOP) in names_ and not g_.ifs:
+                    return False        # no value of a state dictionary is the stopped clearing setting
+                if stop_side and not g_.ifs and any(isinstance(c_, ast.Call) and norm(c_).endswith('.values()') for c_ in ast.walk(t_.args[0].elt)):
+                    return False        # the stopped clearing setting is no value of a state dictionary
+            return None
+        vals_ = [(scen(t_) if pol else (None if scen(t_) is None else not scen(t_))) for t_, pol in conds]
+        if vals_ and all(v_ is True for v_ in vals_):
+            carried_bad = (x, conds)
+        elif not vals_ or not any(v_ is False for v_ in vals_):
+            carried_unk = x
+    if carried_bad is not None:
+        x, conds = carried_bad
+        R.viol(f, x, 'where %s the new state is %s, carried over from the previous point instead of reduced from the active settings: a clearing setting '
+                     '(NO_BOLD_FAINT, FG_DEFAULT, ...) is never a value of the state dictionary, so when its range stops here the guard does not notice and the '
+                     'effect it was hiding is not switched back on -- bold 0..13 with NO_BOLD_FAINT 4..7 renders the tail after 7 without bold' % (
+                         ' and '.join(('%s' if pol else 'not (%s)') % short(t_) for t_, pol in conds), short(x.value)), construct=cons_ns)
+        return
+    if carried_unk is not None:
+        R.undecided(f, carried_unk, 'the new state is %s on some path; whether that path is taken only where nothing stops is not decided' % short(carried_unk.value),
+                    construct=cons_ns)
+        return
+    R.ok(f, full[0], 'the new state is settings_to_dict(%s), the reduction of every active setting%s' % (
+        ACTIVE, '' if len(std_calls) == len(full) else '; it is carried over only where nothing stops'), construct=cons_ns)
+    std_call = full[0]
     NEW = norm(std_call.targets[0])
+
+    def top_(x):
+        while getattr(x, '_parent', None) is not None and x not in opt.body:
+            x = x._parent
+        return x if x in opt.body else None
+    std_top = top_(std_call)
     # OLD: assigned in the block before the reduction from the loop-carried state; the carried state becomes NEW (or is NEW)
     OLD = None
-    before = opt.body[:opt.body.index(std_call)] if std_call in opt.body else []
+    before = opt.body[:opt.body.index(std_top)] if std_top is not None else []
     for x in before:
         if isinstance(x, ast.Assign) and isinstance(x.value, ast.Name) and isinstance(x.targets[0], ast.Name):
             c = x.value.id
@@ -775,7 +881,7 @@ def F6(m, R):
     if OLD is None:
         # no alias: the carried state itself is read as the old state and replaced by the new one afterwards
         for y in opt.body:
-            if isinstance(y, ast.Assign) and isinstance(y.targets[0], ast.Name) and norm(y.value) == NEW and opt.body.index(y) > opt.body.index(std_call):
+            if isinstance(y, ast.Assign) and isinstance(y.targets[0], ast.Name) and norm(y.value) == NEW and std_top is not None and opt.body.index(y) > opt.body.index(std_top):
                 OLD = y.targets[0].id
     if OLD is None:
         R.undecided(f, opt, 'old/new state variables of the optimiser not recognised', construct='optimiser state')
@@ -1032,76 +1138,97 @@ def P28(m, R):
     arg = call.args[0]
     sources = []          # (kind, node)
     unknown = []
-    if not isinstance(arg, ast.Name):
-        defs = [arg]
-    else:
-        L = arg.id
-        lp = next((p for p in _parents(call) if isinstance(p, ast.For) and p in list(f.walk())), None)
-        scope = list(ast.walk(lp)) if lp is not None else list(f.walk())
-        # execution order = pre-order position in the tree (line numbers do not help: inlined helper code keeps its own)
-        order_ = []
+    lp = next((p for p in _parents(call) if isinstance(p, ast.For) and p in list(f.walk())), None)
+    scope = list(ast.walk(lp)) if lp is not None else list(f.walk())
+    # execution order = pre-order position in the tree (line numbers do not help: inlined helper code keeps its own)
+    order_ = []
 
-        def pre_(n_):
-            order_.append(n_)
-            for c_ in ast.iter_child_nodes(n_):
-                pre_(c_)
-        pre_(lp if lp is not None else f.node)
-        pos_ = {id(n_): i_ for i_, n_ in enumerate(order_)}
+    def pre_(n_):
+        order_.append(n_)
+        for c_ in ast.iter_child_nodes(n_):
+            pre_(c_)
+    pre_(lp if lp is not None else f.node)
+    pos_ = {id(n_): i_ for i_, n_ in enumerate(order_)}
+
+    def iter_source(e, lim, depth):
+        """order of an iterable: the parsed sequence, the effect dictionary, or -- for a local list -- whatever that list follows"""
+        k = _order_source(e, parsed, dicts)
+        if k is not None:
+            return [k]
+        while isinstance(e, ast.Call) and call_name(e) in ('list', 'tuple', 'iter', 'enumerate', 'reversed') and e.args:
+            if call_name(e) == 'reversed':
+                return None
+            e = e.args[0]
+        if isinstance(e, ast.Name) and depth < 4:
+            src, unk = list_sources(e.id, lim, depth + 1)
+            if src and not unk:
+                return [k_ for k_, _ in src]
+        return None
+
+    def list_sources(L, lim, depth):
+        src, unk = [], []
         assigns = [n for n in scope if isinstance(n, (ast.Assign, ast.AnnAssign)) and norm(n.targets[0] if isinstance(n, ast.Assign) else n.target) == L and
-                   pos_.get(id(n), 0) <= pos_.get(id(call), 1 << 30)]
+                   pos_.get(id(n), 0) <= lim]
         assigns.sort(key=lambda n: pos_.get(id(n), 0))
         last = assigns[-1] if assigns else None
-        for _ in range(4):      # plain copies `started = to_apply`: the list is the one copied, as it was built before the copy
-            if last is None or not isinstance(last.value, ast.Name):
-                break
-            L = last.value.id
-            lim_ = pos_.get(id(last), 0)
-            assigns = [n for n in scope if isinstance(n, (ast.Assign, ast.AnnAssign)) and norm(n.targets[0] if isinstance(n, ast.Assign) else n.target) == L and
-                       pos_.get(id(n), 0) <= lim_]
-            assigns.sort(key=lambda n: pos_.get(id(n), 0))
-            last = assigns[-1] if assigns else None
+        if last is not None and isinstance(last.value, ast.Name):
+            # plain copy `started = to_apply`: the list is the one copied, as it was built before the copy
+            if depth < 4:
+                return list_sources(last.value.id, pos_.get(id(last), 0), depth + 1)
+            return [], [(last, 'chain of copies')]
         defs = []
         if last is not None and not (isinstance(last.value, (ast.List, ast.Tuple)) and not last.value.elts) and not norm(last.value) == 'list()':
             defs = [last.value]
         else:
             for n in scope:
-                if isinstance(n, ast.Call) and call_name(n) in ('append', 'extend', 'insert') and isinstance(n.func, ast.Attribute) and is_name(n.func.value, L):
+                if isinstance(n, ast.Call) and call_name(n) in ('append', 'extend', 'insert') and isinstance(n.func, ast.Attribute) and is_name(n.func.value, L) \
+                        and pos_.get(id(n), 0) <= lim:
                     if call_name(n) == 'insert':
-                        unknown.append((n, 'insert() reorders'))
+                        unk.append((n, 'insert() reorders'))
                         continue
                     fl = next((p for p in _parents(n) if isinstance(p, ast.For) and p is not lp), None)
                     if fl is None:
-                        unknown.append((n, 'append outside a loop'))
+                        unk.append((n, 'append outside a loop'))
                         continue
-                    k = _order_source(fl.iter, parsed, dicts)
-                    if k is None:
-                        unknown.append((n, 'loop over %s' % short(fl.iter)))
+                    ks = iter_source(fl.iter, pos_.get(id(fl), 0), depth)
+                    if ks is None:
+                        unk.append((n, 'loop over %s' % short(fl.iter)))
                     else:
-                        sources.append((k, fl))
+                        src += [(k, fl) for k in ks]
             for n in scope:
-                if isinstance(n, ast.Call) and call_name(n) == 'sort' and isinstance(n.func, ast.Attribute) and is_name(n.func.value, L):
+                if isinstance(n, ast.Call) and call_name(n) == 'sort' and isinstance(n.func, ast.Attribute) and is_name(n.func.value, L) and pos_.get(id(n), 0) <= lim:
                     if any(x in parsed for x in names_in(n)):
-                        sources = [('sequence', n)]
-                        unknown = []
+                        src = [('sequence', n)]
+                        unk = []
                     else:
-                        unknown.append((n, 'sorted by %s' % short(n)))
-    for d in defs:
-        if isinstance(d, (ast.ListComp, ast.GeneratorExp)):
-            k = _order_source(d.generators[0].iter, parsed, dicts)
-            if k is None:
-                unknown.append((d, 'comprehension over %s' % short(d.generators[0].iter)))
+                        unk.append((n, 'sorted by %s' % short(n)))
+        for d in defs:
+            comp = d if isinstance(d, (ast.ListComp, ast.GeneratorExp)) else \
+                d.args[0] if isinstance(d, ast.Call) and call_name(d) in ('list', 'tuple') and d.args and isinstance(d.args[0], (ast.ListComp, ast.GeneratorExp)) else None
+            if comp is not None:
+                if len(comp.generators) != 1:
+                    unk.append((d, 'nested comprehension'))
+                    continue
+                ks = iter_source(comp.generators[0].iter, pos_.get(id(last), lim + 1) - 1, depth)       # what the iterable was before this statement
+                if ks is None:
+                    unk.append((d, 'comprehension over %s' % short(comp.generators[0].iter)))
+                else:
+                    src += [(k, d) for k in ks]
+            elif isinstance(d, ast.Call) and call_name(d) == 'sorted' and any(x in parsed for x in names_in(d)):
+                src.append(('sequence', d))
             else:
-                sources.append((k, d))
-        elif isinstance(d, ast.Call) and call_name(d) == 'sorted' and any(x in parsed for x in names_in(d)):
-            sources.append(('sequence', d))
-        elif isinstance(d, ast.Call) and call_name(d) in ('list', 'tuple') and d.args and isinstance(d.args[0], (ast.ListComp, ast.GeneratorExp)):
-            k = _order_source(d.args[0].generators[0].iter, parsed, dicts)
-            if k is None:
-                unknown.append((d, 'comprehension over %s' % short(d.args[0].generators[0].iter)))
-            else:
-                sources.append((k, d))
+                unk.append((d, 'built by %s' % short(d)))
+        return src, unk
+
+    if not isinstance(arg, ast.Name):
+        holder = ast.Assign(targets=[ast.Name(id='@arg', ctx=ast.Store())], value=arg)
+        ks = iter_source(arg, pos_.get(id(call), 1 << 30), 0)
+        if ks is None:
+            unknown.append((arg, 'built by %s' % short(arg)))
         else:
-            unknown.append((d, 'built by %s' % short(d)))
+            sources = [(k, arg) for k in ks]
+    else:
+        sources, unknown = list_sources(arg.id, pos_.get(id(call), 1 << 30), 0)
     if unknown or not sources:
         n, why = unknown[0] if unknown else (call, 'no definition of the started list found')
         R.undecided(f, n, 'order of the started settings not recognised: %s' % why, construct=cons)
